@@ -122,6 +122,15 @@ func (v *FnVC) callCommon(c *ssa.CallCommon, val ssa.Value, pos token.Pos, how s
 		if !v.dry {
 			v.noteUncontracted(key, short)
 		}
+		if !v.w.isPureExtern(key) && how == "call" {
+			// an uncontracted callee may panic: exceptional postconditions of the caller are checked here
+			v.panicPath("call:"+site, pos, func() {
+				v.havocAllHeaps()
+				if key == "" || strings.HasPrefix(key, "github.com/tigerwill90/fox") {
+					v.havocGhosts()
+				}
+			})
+		}
 		if v.w.isPureExtern(key) {
 			old := v.get("nextref")
 			nn := v.havoc("nextref")
@@ -190,8 +199,30 @@ func (v *FnVC) callCommon(c *ssa.CallCommon, val ssa.Value, pos token.Pos, how s
 			// a precondition labelled "safety" guards only against a panic of the callee: a caller
 			// verified for partial correctness assumes it, like its own safety conditions
 			claimed := !(v.fc.Partial && strings.HasPrefix(cl.Label, "safety"))
-			v.oblige("pre@call:"+site, v.clauseLabel(cl, k-1, j), t, nil, claimed, cj.String(), pos)
+			oblSite := site
+			if how == "defer-panic" {
+				oblSite += "@panic-in:" + v.panicSite
+			}
+			v.oblige("pre@call:"+oblSite, v.clauseLabel(cl, k-1, j), t, nil, claimed, cj.String(), pos)
 		}
+	}
+	if how == "call" && fc.mayPanic() {
+		// exceptional exit: the callee's frame is applied, nothing of its postcondition is known
+		v.panicPath("call:"+site, pos, func() {
+			v.applyModifies(fc, cenv, pre)
+			// what the callee guarantees when it panics
+			xenv := v.newEnv(v.st, cenv)
+			xenv.callee = true
+			for n, t := range cenv.vars {
+				xenv.vars[n] = t
+			}
+			xenv.atReturn = true
+			for _, cl := range fc.Clauses {
+				if cl.Kind == "ensures-on-panic" {
+					v.assume(v.specBool(cl.E, xenv, cl))
+				}
+			}
+		})
 	}
 	// frame
 	v.applyModifies(fc, cenv, pre)
@@ -224,6 +255,30 @@ func (v *FnVC) callCommon(c *ssa.CallCommon, val ssa.Value, pos token.Pos, how s
 				v.assume(fmt.Sprintf("(= %s (%s %s))", results[0].S, name, strings.Join(as, " ")))
 			}
 		}
+	}
+	if how == "defer-panic" && fc.mayPanic() {
+		// a deferred call on a panic path may itself end in a panic (it re-raises): either its normal
+		// postcondition holds, or one of its panics-when conditions held at entry and its exceptional
+		// postcondition (ensures-on-panic) holds
+		var normal, exc, pw []string
+		for _, cl := range fc.Clauses {
+			switch cl.Kind {
+			case "ensures":
+				if cl.Behav == "" {
+					normal = append(normal, v.specBool(cl.E, post, cl))
+				}
+			case "ensures-on-panic":
+				exc = append(exc, v.specBool(cl.E, post, cl))
+			case "panics-when":
+				pw = append(pw, v.specBool(cl.E, cenv, cl))
+			}
+		}
+		if fc.MayPanic {
+			pw = append(pw, "true")
+		}
+		v.assume(or(and(normal...), and(append([]string{or(pw...)}, exc...)...)))
+		v.ghostAtCall(site, "after", pnames, args)
+		return results
 	}
 	for _, cl := range fc.Clauses {
 		if cl.Kind != "ensures" {
@@ -869,4 +924,70 @@ func (v *FnVC) copyBuiltin(c *ssa.CallCommon, rt types.Type, pos token.Pos) Term
 	// copy into a nil slice copies nothing and touches nothing
 	v.set(key, v.heapSort(key), fmt.Sprintf("(ite (> %s 0) (store %s (sl_ref %s) %s) %s)", n, heap, d.S, arr, heap))
 	return Term{n, rt}
+}
+
+// mayPanic: the contract declares that a call can end in a panic (panics-when clauses, or may-panic for
+// callees that run caller-supplied code).  Callees under contract without either are taken not to panic.
+func (fc *FuncContract) mayPanic() bool {
+	if fc.MayPanic {
+		return true
+	}
+	for _, cl := range fc.Clauses {
+		if cl.Kind == "panics-when" {
+			return true
+		}
+	}
+	return false
+}
+
+func (v *FnVC) onPanicClauses() []*Clause {
+	var cls []*Clause
+	for _, cl := range v.fc.Clauses {
+		if cl.Kind == "ensures-on-panic" && (cl.Behav == "" || cl.Behav == v.behav) {
+			cls = append(cls, cl)
+		}
+	}
+	return cls
+}
+
+// panicPath checks the function's exceptional postconditions (ensures-on-panic) for a panic raised by the
+// call at `site`: the callee's effects are havocked by `havoc`, a panic is in flight, the deferred calls
+// registered on every path to this point run in reverse order (their contracts are applied, their
+// preconditions obliged), and every ensures-on-panic clause must hold in the resulting state.  The normal
+// path continues from the state before.
+func (v *FnVC) panicPath(site string, pos token.Pos, havoc func()) {
+	cls := v.onPanicClauses()
+	if len(cls) == 0 || v.panicSite != "" {
+		return
+	}
+	v.panicSite = site
+	bi := v.blocks[v.cur]
+	saveSt, na, pt := v.st.clone(), len(bi.assumes), bi.point
+	havoc()
+	if g, ok := v.w.cs.Ghosts["panicking"]; ok {
+		key := v.w.ghostKey(g)
+		p := v.fresh("inflight")
+		v.declare(p, "Int")
+		v.assume(fmt.Sprintf("(not (= %s 0))", p))
+		v.set(key, v.heapSort(key), p)
+	}
+	for i := len(v.deferred) - 1; i >= 0; i-- {
+		d := v.deferred[i]
+		if !d.Block().Dominates(v.cur) {
+			// registered on some paths only: it cannot be relied upon
+			continue
+		}
+		v.callCommon(&d.Call, nil, d.Pos(), "defer-panic")
+	}
+	env := v.newEnv(v.st, v.initEnv)
+	env.atReturn = true
+	for k, cl := range cls {
+		for j, c := range v.flatten(cl.E) {
+			t := v.specBoolE(c, env, cl)
+			v.behavClause = cl.Behav != ""
+			v.oblige("on-panic@"+site, v.clauseLabel(cl, k, j), t, cl.Props, true, c.String(), pos)
+		}
+	}
+	v.st, bi.assumes, bi.point = saveSt, bi.assumes[:na], pt
+	v.panicSite = ""
 }
